@@ -266,6 +266,15 @@ impl SenderMon {
                     // a zero-window probe is one octet at SND.NXT, which lies AT or (after the
                     // peer shrank its window over data in flight) BEYOND the latest edge
                     let is_probe = plen == 1 && !wc::seq_lt(t.seq, le);
+                    if !is_new && !is_probe && wc::seq_lt(le, end) {
+                        // the peer's segments all arrived in order, so the window learned last is
+                        // the only one in force: a retransmission (fast or timed) of octets the
+                        // peer has meanwhile shrunk out of its window must stop at the new edge
+                        v.push(Viol::new(
+                            "C05/beyond-latest-window/retransmission",
+                            format!("{} retransmitted seq {}..{} but the segment delivered last gave the right edge {} ({} bytes beyond; the peer shrank its window)", who, t.seq, end, le, wc::seq_diff(end, le)),
+                        ));
+                    }
                     if is_new && !is_probe && wc::seq_lt(le, end) {
                         v.push(Viol::new(
                             "C05/beyond-latest-window/new-data",
